@@ -336,6 +336,40 @@ func factsC18() {
 		}
 	}
 	addStrList("c18AuthExternalBlock", block, "haproxy.tmpl authExternal: control lines and http-request lines, source order")
+
+	// ---- addBackendWithClass: when the IngressClass parameters are merged into the path link of the backend's mapper
+	ingGo := "pkg/converters/ingress/ingress.go"
+	abc := methodDecl(ingGo, "converter", "addBackendWithClass")
+	var mergeCalls, mergeConds []string
+	var stack []ast.Node
+	ast.Inspect(abc.Body, func(n ast.Node) bool {
+		if n == nil {
+			stack = stack[:len(stack)-1]
+			return true
+		}
+		stack = append(stack, n)
+		if call, ok := n.(*ast.CallExpr); ok {
+			if sel, ok := call.Fun.(*ast.SelectorExpr); ok && sel.Sel.Name == "AddAnnotations" {
+				if len(call.Args) == 3 {
+					mergeCalls = append(mergeCalls, c18Src(ingGo, call.Args[1])+", "+c18Src(ingGo, call.Args[2]))
+				}
+				if len(call.Args) == 3 && c18Src(ingGo, call.Args[2]) == "cfg" {
+					for _, anc := range stack {
+						if is, ok := anc.(*ast.IfStmt); ok {
+							c := c18Src(ingGo, is.Cond)
+							if is.Init != nil {
+								c = c18Src(ingGo, is.Init) + "; " + c
+							}
+							mergeConds = append(mergeConds, c)
+						}
+					}
+				}
+			}
+		}
+		return true
+	})
+	addStrList("c18ClassMergeCalls", mergeCalls, "ingress.go addBackendWithClass: path link and annotation map of the AddAnnotations calls on the backend's mapper, source order (Service, Ingress, class parameters)")
+	addStrList("c18ClassMergeConds", mergeConds, "ingress.go addBackendWithClass: conditions of the if statements enclosing the merge of the class parameters, outermost first")
 }
 
 func quote(s string) string { return strconv.Quote(s) }
